@@ -861,10 +861,42 @@ func ruleG10b(r *Run) {
 		r.Undec(key, fd.Pos(), "no OnFailure literal")
 		return
 	}
-	isCurURL := func(e ast.Expr) bool {
-		fv := fieldOf(info, e)
-		return fv != nil && fv.Name() == "URL"
+	ldefs := localDefs(info, lit.Body)
+	var isCurURL func(e ast.Expr) bool
+	isCurURL = func(e ast.Expr) bool {
+		e = ast.Unparen(e)
+		if fv := fieldOf(info, e); fv != nil && fv.Name() == "URL" {
+			return true
+		}
+		// a local that holds the current URL, or its text
+		if o := identObj(info, e); o != nil {
+			if d, ok := ldefs[o]; ok && d != nil {
+				return isCurURL(d)
+			}
+			// defined in an if/switch init: look for the definition
+			found := false
+			ast.Inspect(lit.Body, func(n ast.Node) bool {
+				if as, ok := n.(*ast.AssignStmt); ok && as.Tok == token.DEFINE && len(as.Lhs) == len(as.Rhs) {
+					for i, l := range as.Lhs {
+						if id, ok := l.(*ast.Ident); ok && info.Defs[id] == o {
+							if fv := fieldOf(info, as.Rhs[i]); fv != nil && fv.Name() == "URL" {
+								found = true
+							}
+						}
+					}
+				}
+				return true
+			})
+			return found
+		}
+		if c, ok := e.(*ast.CallExpr); ok && methodName(c) == "String" {
+			if se, ok := ast.Unparen(c.Fun).(*ast.SelectorExpr); ok {
+				return isCurURL(se.X)
+			}
+		}
+		return false
 	}
+	byValue := false
 	assigns, compares := false, false
 	ast.Inspect(lit.Body, func(n ast.Node) bool {
 		switch x := n.(type) {
@@ -877,6 +909,12 @@ func ruleG10b(r *Run) {
 		case *ast.BinaryExpr:
 			if (x.Op == token.EQL || x.Op == token.NEQ) && (isCurURL(x.X) || isCurURL(x.Y)) {
 				compares = true
+				// by what the URL says (String(), or a field of it), not only by pointer
+				if t := info.TypeOf(x.X); t != nil {
+					if _, isPtr := t.Underlying().(*types.Pointer); !isPtr {
+						byValue = true
+					}
+				}
 			}
 		}
 		return true
@@ -884,6 +922,9 @@ func ruleG10b(r *Run) {
 	if !assigns {
 		r.Viol(key, lit.Pos(), "OnFailure no longer assigns the call's URL: failover does not move at all")
 		return
+	}
+	if compares {
+		r.Check(byValue, "failover recognises the failed server by its URL text", lit.Pos(), "compared by value (String())", "OnFailure compares the candidate with the call's current URL by pointer only: a load balancer installs its own *url.URL values for the same servers (MakeWeightedLoadBalance parses the URIs again), so behind it the comparison never matches and failover re-sends the call to the server that has just failed")
 	}
 	r.Check(compares, key, lit.Pos(), "candidate compared with the call's current URL", "OnFailure takes the next URL from the rotation index alone; the index is shared by all calls while every call starts at URLs[0], so with two servers every second failover selects the server that has just failed (run-confirmed: with retry:1 and the first server down, every second call fails although the second server is healthy)")
 }
